@@ -20,7 +20,8 @@ RULE = ("one case = one estimator fitted ONCE by the real code, then applied to 
         "panel, parameters at and around the acceptance boundary); kind=learned: every other "
         "runnable panel transformer / classifier / regressor on generated sine+noise problems "
         "(12-24 time points, 1-3 variables, 2-3 classes, column names var_i / dim_i, configurations "
-        "drawn per case). non-trivial = the batch was accepted, has >= 2 pairwise different output "
+        "drawn per case); in addition the build regenerates the row-flow table of all 52 apply-time "
+        "methods (Gen.v) and checks it in Coq. non-trivial = the batch was accepted, has >= 2 pairwise different output "
         "rows and at least one non-identity permutation was run; distinct = distinct canonical JSON case")
 TRUSTED = [
     "translator/rowwise_c16.py (row-flow extractor, fail closed): an abstract interpreter over the "
@@ -306,9 +307,35 @@ def _gen_learned(rng, est):
     return c
 
 
+def _expected_methods():
+    """the pinned list of coq/C16/Bridge.v (expected_translated)"""
+    import os
+    import re
+    here = os.path.dirname(os.path.dirname(os.path.abspath(__file__)))
+    with open(os.path.join(here, "coq", "C16", "Bridge.v")) as f:
+        src = f.read()
+    m = re.search(r"Definition expected_translated : list string := \[(.*?)\]\.", src, re.S)
+    if not m:
+        raise RuntimeError("expected_translated not found in coq/C16/Bridge.v")
+    return re.findall(r'"([^"]+)"', m.group(1))
+
+
 def translate(repo):
+    """fail closed: a method that must be in the panel-program language and is not any more is a
+    broken tie, reported with the extractor's reason (Bridge.expected_are_translated is the second
+    line of defence)"""
     from translator import rowwise_c16
-    return rowwise_c16.translate(repo)      # raises on a source shape it cannot even index
+    from translator.pyz import Unsupported
+    rows = rowwise_c16.extract(repo)
+    status = {k: (st, p) for k, st, p, _, _ in rows}
+    gone = []
+    for name in _expected_methods():
+        st, why = status.get(name, ("no", "the method no longer exists in the anchored files"))
+        if st != "ok":
+            gone.append("%s left the panel-program language: %s" % (name, why))
+    if gone:
+        raise Unsupported("; ".join(gone))
+    return {"C16/Gen.v": rowwise_c16.render(rows)}
 
 
 def method_table(repo=None):
@@ -1090,6 +1117,14 @@ def extra_coverage(cases, results, tier):
 def distribution(cases, results):
     import collections
     d = collections.Counter()
+    try:
+        done, rest = method_table()
+        for k in done:
+            d["method:%s:proved-row-wise-by-construction" % k] = 1
+        for k, why in rest.items():
+            d["method:%s:sampled-only (%s)" % (k, why[:90])] = 1
+    except Exception:
+        pass
     for c, r in zip(cases, results):
         o = r.get("out") or {}
         who = c.get("est") or c.get("t")
